@@ -26,7 +26,7 @@ RULE = ('precedence: for each of 12 keys (9 documented, 3 unknown) a seeded choi
         'or a prefix matched; distinct by canonical case')
 ASSUMPTIONS = ['prefix items are non-empty and contain no comma', 'equality of poll cadence is judged in logical terms '
                '(timer thread alive and >= 3 polls within a generous watchdog), not by wall-clock period']
-REQUIRE = {'two_start_sessions': 3, 'late_environment_reads': 30, 'function_settings_read_twice': 4, 'precedence_reads': 400, 'behaviour_sessions': 20, 'classifications': 5000, 'prefix_matched': 1500,
+REQUIRE = {'two_start_sessions': 5, 'late_environment_reads': 30, 'function_settings_read_twice': 4, 'precedence_reads': 400, 'behaviour_sessions': 20, 'classifications': 5000, 'prefix_matched': 1500,
            'exclusion_won': 200, 'reclassified_snapshots': 40}
 SHARD_TIMEOUT = {'quick': 400, 'thorough': 2400}
 
@@ -34,14 +34,14 @@ DOCUMENTED = {   # key -> (module default when no env, kind)
     'SERVICE_URL': 'deep:43315', 'SERVICE_SECURE': 'True', 'LOGGING_CONF': None, 'POLL_TIMER': 10,
     'SERVICE_AUTH_PROVIDER': None, 'APP_ROOT': '', 'PLUGINS': [],
 }
-UNKNOWN = ['SERVICE_USERNAME', 'SERVICE_PASSWORD', 'MY_CUSTOM_KEY', 'NO_TRACE']
+UNKNOWN = ['SERVICE_USERNAME', 'SERVICE_PASSWORD', 'MY_CUSTOM_KEY', 'NO_TRACE', 'tenant_Id']
 
 
 def plan(tier, seed):
     n = {'quick': 1, 'thorough': 12}[tier]
     return (split_seeds('p%s' % seed, 48 * n, 8, 'precedence') + split_seeds('b%s' % seed, 16 * n, 8, 'behaviour') +
             split_seeds('c%s' % seed, 6000 * n, 4, 'classify') + split_seeds('r%s' % seed, 24 * n, 2, 'reclassify') +
-            split_seeds('s%s' % seed, 3 * n, 3, 'twostarts'))
+            split_seeds('s%s' % seed, 5 * n, 5, 'twostarts'))
 
 
 # ---------------------------------------------------------------- (a) precedence
@@ -252,8 +252,10 @@ def case_twostarts(seed, out, spec):
     """deep.start() twice in one process without arguments: each start resolves the application root afresh (from the
     DEEP_APP_ROOT of that moment, else from its caller), nothing is carried over from the first start."""
     r = Rng('c19s', seed)
-    combos = [(None, '/second/root'), ('/first/root', '/second/root'), ('/first/root', None)]
-    first_env, second_env = combos[int(str(seed).split(':')[-1]) % 3]
+    # ('' = the variable is set but empty: like an unset one, the caller's directory is used)
+    combos = [(None, '/second/root'), ('/first/root', '/second/root'), ('/first/root', None), ('', '/second/root'),
+              ('/first/root', '')]
+    first_env, second_env = combos[int(str(seed).split(':')[-1]) % 5]
     res = e2e.call_child('vf.props.c19', 'child_twostarts', {'first': first_env, 'second': second_env}, timeout=90)
     replay = replay_spec(spec, seed)
     witness = {'DEEP_APP_ROOT_at_first_start': first_env, 'DEEP_APP_ROOT_at_second_start': second_env, 'result': _trim(res)}
@@ -331,12 +333,13 @@ def child_behaviour(arg):
         give('POLL_TIMER', ['0.1', '1', '0.25'][variant], [0.1, 1, 0.25][variant])
     elif setting == 'SERVICE_URL':
         give('SERVICE_URL', srv.url)
+        empty = arg.get('variant5', 0) == 3      # set, but empty: not one of the words that mean yes, in either form
         if form == 'env':
-            env['DEEP_SERVICE_SECURE'] = ['False', 'false', 'no'][variant]
+            env['DEEP_SERVICE_SECURE'] = '' if empty else ['False', 'false', 'no'][variant]
             code.pop('SERVICE_SECURE')
         else:
             # (in code the natural spelling is the boolean itself)
-            code['SERVICE_SECURE'] = [False, 'false', 'no'][variant]
+            code['SERVICE_SECURE'] = '' if empty else [False, 'false', 'no'][variant]
     elif setting == 'AUTH':
         give('SERVICE_AUTH_PROVIDER', 'deep.api.auth.BasicAuthProvider')
         for k, v in (('SERVICE_USERNAME', 'user%d' % variant), ('SERVICE_PASSWORD', 'pw-%d' % variant)):
